@@ -2726,7 +2726,10 @@ class Network(Cached):
             the number of all nodes is returned.  (Default: True)
         :rtype: int >= 0
         """
-        return self.graph.diameter(directed=directed, unconn=only_connected)
+        diameter = self.graph.diameter(directed=directed,
+                                       unconn=only_connected)
+        #  igraph reports an unconnected network as infinite diameter
+        return self.N if np.isinf(diameter) else diameter
 
     #
     #  Link valued measures
